@@ -31,7 +31,9 @@ CHECK = {
         {'harness': 'array', 'sources': ['harness/array.c'] + EX, 'configs': both(['dbg-asan', 'rel-asan']),
          # harness TUs only: no ASan fake-stack frames in the harness (a longjmp out of an expected abort would
          # otherwise trigger a fake-stack GC per probe, ~20x slowdown); the library is instrumented as usual
-         'cflags': ['--param', 'asan-use-after-return=0']},
+         'cflags': ['--param', 'asan-use-after-return=0'],
+         # typical on 16 idle cores: quick ~6 s, thorough ~60-90 s per configuration; generous for a loaded machine
+         'watchdog': {'quick': 900, 'thorough': 7200}},
     ],
 }
 
